@@ -41,7 +41,7 @@ def yaml_text(obj):
     return b.getvalue()
 
 
-def problem(cfg, rng):
+def problem(cfg, rng, pick=None):
     """generating parameters in a physical box, the model with guesses at truth or nearby"""
     truth = {"r": rng.uniform(0.4, 0.7), "x": rng.uniform(1.3, 1.9), "y": rng.uniform(1.3, 1.9),
              "z": rng.uniform(5.0, 8.0), "alpha": rng.uniform(0.7, 0.95)}
@@ -50,6 +50,17 @@ def problem(cfg, rng):
         truth["z"] = rng.uniform(2.0, 4.0)
         truth["lens_angle"] = rng.uniform(0.7, 0.9)
     pert = {k: (1.0 if cfg["start"] == "truth" else 1.0 + rng.choice([-1, 1]) * rng.uniform(0.005, 0.02)) for k in truth}
+    box = {"r": (0.3, 0.8), "x": (1.0, 2.2), "y": (1.0, 2.2), "z": (1.5, 9.0), "alpha": (0.5, 1.0), "lens_angle": (0.5, 1.1)}
+    if cfg["start"] in ("on_lower", "on_upper"):
+        # one parameter starts exactly on a bound of its prior, the generating value 1-3 % inside
+        k = pick if pick in truth else rng.choice(sorted(truth))
+        d = rng.uniform(0.01, 0.03)
+        if cfg["start"] == "on_upper":
+            box[k] = (box[k][0], truth[k] * (1 + d))
+            pert[k] = 1 + 2 * d          # clipped to the bound below
+        else:
+            box[k] = (truth[k] * (1 - d), box[k][1])
+            pert[k] = 1 - 2 * d
     det = hp.detector_grid(16, 0.2)
     th_true = MieLens(lens_angle=truth["lens_angle"]) if lens else Mie()
     data = calc_holo(det, Sphere(n=1.59, r=truth["r"], center=(truth["x"], truth["y"], truth["z"])),
@@ -57,10 +68,9 @@ def problem(cfg, rng):
 
     def U(key, lo, hi):
         return prior.Uniform(lo, hi, guess=min(hi, max(lo, truth[key] * pert[key])))
-    s = Sphere(n=1.59, r=U("r", 0.3, 0.8), center=(U("x", 1.0, 2.2), U("y", 1.0, 2.2),
-                                                  U("z", 1.5, 9.0)))
-    theory = MieLens(lens_angle=U("lens_angle", 0.5, 1.1)) if lens else Mie()
-    model = AlphaModel(s, alpha=U("alpha", 0.5, 1.0), noise_sd=0.05, theory=theory, **KW)
+    s = Sphere(n=1.59, r=U("r", *box["r"]), center=(U("x", *box["x"]), U("y", *box["y"]), U("z", *box["z"])))
+    theory = MieLens(lens_angle=U("lens_angle", *box["lens_angle"])) if lens else Mie()
+    model = AlphaModel(s, alpha=U("alpha", *box["alpha"]), noise_sd=0.05, theory=theory, **KW)
     names = {"r": "r", "x": "center.0", "y": "center.1", "z": "center.2", "alpha": "alpha", "lens_angle": "lens_angle"}
     want = {names[k]: v for k, v in truth.items()}
     npix = 120 if cfg["data"] == "subset" else None
@@ -139,7 +149,8 @@ def run(ctx):
     quick = ctx.tier == "quick"
     rng = random.Random(ctx.seed)
     tmp = tempfile.mkdtemp(prefix="c13_")
-    ctx.rule = ("TLC enumerates 16 configurations (nmpfit/scipy x full/subset x start at truth/nearby x Mie/"
+    ctx.rule = ("TLC enumerates 32 configurations (nmpfit/scipy x full/subset x start at truth/nearby/on a lower/on "
+                "an upper bound of one parameter's prior x Mie/"
                 "MieLens with fitted lens angle) and every interleaving of fit, three cache reads, save, load and "
                 "a second fit up to MaxSteps; every edge of the graph is executed on real objects; distinct = "
                 "(configuration, state); non-trivial = path with a save after at least one cache read or a "
@@ -151,7 +162,10 @@ def run(ctx):
         g = ctx.tlc_graph("FitSession", "FitSession.cfg", constants={"MaxSteps": 4 if quick else 5})
         inits = sorted(g.init, key=lambda s: str(sorted(g.states[s]["cfg"].items())))
         if quick:
-            inits = [s for i, s in enumerate(inits) if i % 2 == (ctx.seed % 2)] if len(inits) > 8 else inits
+            # half of the configurations, every (strategy, start) with two of the four (data, theory) pairs
+            def keep(c):
+                return ((c["data"] == "subset") + (c["theory"] != "mie") + ctx.seed) % 2 == 0
+            inits = [s for s in inits if keep(g.states[s]["cfg"])]
         nfile = 0
         for sid in inits:
             cfg = g.states[sid]["cfg"]
@@ -164,6 +178,10 @@ def run(ctx):
                 continue
             traces.append([ev1, ev2])
             results = {1: res1, 2: res2}
+            if quick and cfg["start"].startswith("on_"):
+                # the session walk does not depend on the start; quick walks it for the other starts only
+                ctx.case(("fit-only", str(sorted(cfg.items()))), nontrivial=True)
+                continue
             # walk the whole graph from this initial state
             stack = [(sid, None, None, None, None)]       # state id, result, file, snapshot at save, loaded
             seen_edges = 0
